@@ -41,6 +41,8 @@ func c07Run(rd *bluge.Reader, cfg bluge.Config, q *model.Q, collector string) (i
 	var req bluge.SearchRequest
 	if collector == "topn" {
 		req = bluge.NewTopNSearch(1000, q.ToBluge())
+	} else if collector == "topn-noscore" {
+		req = bluge.NewTopNSearch(1000, q.ToBluge()).SetScore("none")
 	} else {
 		req = bluge.NewAllMatches(q.ToBluge())
 	}
@@ -119,12 +121,55 @@ func c07CheckCorpus(c *vk.Ctx, co *model.Corpus, queries []*model.Q, dirKind str
 	} else {
 		cfg = bx.NoMerge(bluge.InMemoryOnlyConfig())
 	}
+	batches := co.Batches
+	if dirKind == "fs" && seq%2 == 1 && len(batches) >= 2 {
+		// MERGED segments in front of never-merged ones (merged segments use compact encodings of their
+		// own, e.g. for terms with a single hit): the first half of the history goes through a merge-happy
+		// writer that is left to settle and closed, the rest through the ordinary writer below
+		half := len(batches) / 2
+		w0, err := bluge.OpenWriter(bx.MergeHappy(bluge.DefaultConfig(dir), false))
+		if err != nil {
+			c.Violate("harness-open", err.Error(), nil)
+			return
+		}
+		for _, b := range batches[:half] {
+			if err := w0.Batch(b.ToBluge()); err != nil {
+				c.Violate("harness-batch", err.Error(), nil)
+			}
+		}
+		// the planner only merges once the segment count exceeds its (small) budget: pad the history with
+		// throw-away documents, one batch each, deleted again at the end (no logical content added)
+		for k := 0; k < 10; k++ {
+			jb := bluge.NewBatch()
+			jd := &model.Doc{ID: fmt.Sprintf("junk-%d", k), V: "junk", Text: map[string]string{"t": "junk"}}
+			jb.Update(bluge.Identifier(jd.ID), jd.ToBluge())
+			_ = w0.Batch(jb)
+		}
+		jb := bluge.NewBatch()
+		for k := 0; k < 10; k++ {
+			jb.Delete(bluge.Identifier(fmt.Sprintf("junk-%d", k)))
+		}
+		_ = w0.Batch(jb)
+		waitQuiet(w0)
+		if rd0, err := w0.Reader(); err == nil {
+			if n0 := len(rd0.VerifSnapshot().Segments()); n0 < half+10 {
+				c.Event("merged_front_really_merged", 1)
+			}
+			_ = rd0.Close()
+		}
+		if err := w0.Close(); err != nil {
+			c.Violate("harness-close", err.Error(), nil)
+			return
+		}
+		batches = batches[half:]
+		c.Event("corpora_with_merged_segments_in_front", 1)
+	}
 	w, err := bluge.OpenWriter(cfg)
 	if err != nil {
 		c.Violate("harness-open", err.Error(), nil)
 		return
 	}
-	for _, b := range co.Batches {
+	for _, b := range batches {
 		if err := w.Batch(b.ToBluge()); err != nil {
 			c.Violate("harness-batch", err.Error(), nil)
 		}
@@ -142,6 +187,9 @@ func c07CheckCorpus(c *vk.Ctx, co *model.Corpus, queries []*model.Q, dirKind str
 	}
 	nseg := len(cur.VerifSnapshot().Segments())
 	c.EventMax("max_segments", int64(nseg))
+	if len(batches) != len(co.Batches) {
+		c.Event(fmt.Sprintf("merged_front_layouts_with_%d_segments", nseg), 1)
+	}
 	if nseg >= 2 {
 		c.Event("corpora_with_2plus_segments", 1)
 	}
@@ -175,8 +223,11 @@ func c07CheckCorpus(c *vk.Ctx, co *model.Corpus, queries []*model.Q, dirKind str
 	for ri, r := range readers {
 		for qi, q := range queries {
 			coll := "all"
-			if (qi+ri)%3 == 0 {
+			switch (qi + ri) % 6 {
+			case 0, 3:
 				coll = "topn"
+			case 1:
+				coll = "topn-noscore" // score mode none: the unadorned conjunction / disjunction optimisations
 			}
 			repeat := 1
 			if qi%10 == 9 {
@@ -469,6 +520,64 @@ func c07CheckCorpusLight(c *vk.Ctx, co *model.Corpus, queries []*model.Q) {
 	}
 }
 
+// c07MergedFront: a merged segment followed by never-merged ones, keyword values some of which occur
+// exactly once in the merged part (merges store such terms in a compact one-hit form) and again in the
+// later segments; every two-term conjunction / disjunction / exclusion over the keyword and text terms,
+// each under all collectors (scored, unscored, all-matches).
+func c07MergedFront(c *vk.Ctx, i int) {
+	r := rand.New(rand.NewSource(vk.SubSeed(c.Seed, fmt.Sprintf("c07-mergedfront-%d", i))))
+	kv := []string{"ka", "kb", "kc", "kd", "ke"}
+	tv := []string{"x", "y", "z"}
+	co := &model.Corpus{Vocab: model.GenVocab(r, 3)}
+	ix := &model.Index{}
+	n := 0
+	// one document per batch: small segments are what the merge planner picks first, so the documents of
+	// the first half really end up inside merged segments
+	nb := 14 + r.Intn(8)
+	for b := 0; b < nb; b++ {
+		bt := &model.Batch{}
+		for k := 0; k < 1; k++ {
+			n++
+			id := fmt.Sprintf("m%02d", n)
+			// skewed: kd / ke are rare, so that they tend to occur once in the merged half
+			kw := kv[[]int{0, 0, 0, 1, 1, 2, 2, 3, 4}[r.Intn(9)]]
+			var words []string
+			for x := 0; x < 1+r.Intn(3); x++ {
+				words = append(words, tv[r.Intn(3)])
+			}
+			bt.Ops = append(bt.Ops, model.Op{Kind: "update", ID: id, Doc: &model.Doc{ID: id, V: id, Kw: map[string][]string{"k": {kw}}, Text: map[string]string{"t": strings.Join(words, " ")}}})
+		}
+		if b == nb-3 && n > 3 {
+			bt.Ops = append(bt.Ops, model.Op{Kind: "delete", ID: fmt.Sprintf("m%02d", 1+r.Intn(3))})
+		}
+		co.Batches = append(co.Batches, bt)
+		ix = ix.Apply(bt)
+	}
+	co.Final = ix
+	T := func(f, t string) *model.Q { return &model.Q{Kind: "term", Field: f, Term: t} }
+	var qs []*model.Q
+	add := func(q *model.Q) {
+		for k := 0; k < 6; k++ { // six consecutive copies: each meets every collector of the rotation
+			qs = append(qs, q)
+		}
+	}
+	for _, a := range kv {
+		for _, t := range tv {
+			add(&model.Q{Kind: "bool", Must: []*model.Q{T("k", a), T("t", t)}})
+			add(&model.Q{Kind: "bool", Should: []*model.Q{T("k", a), T("t", t)}, MinShould: 1})
+			add(&model.Q{Kind: "bool", Must: []*model.Q{T("t", t)}, MustNot: []*model.Q{T("k", a)}})
+		}
+		for _, b := range kv {
+			if a < b {
+				add(&model.Q{Kind: "bool", Should: []*model.Q{T("k", a), T("k", b)}, MinShould: 1})
+			}
+		}
+		add(&model.Q{Kind: "bool", Must: []*model.Q{T("k", a), T("_id", fmt.Sprintf("m%02d", 1+r.Intn(n)))}})
+	}
+	c07CheckCorpus(c, co, qs, "fs", 2*i+1)
+	c.Event("merged_front_small_corpora", 1)
+}
+
 // every leaf kind, with the term-enumerating kinds (numeric, date, geo) at a low weight
 var c07MixedKinds = func() []string {
 	var l []string
@@ -492,6 +601,9 @@ func runC07(c *vk.Ctx) {
 		"numeric/date ranges that run into C10's byte-wise enumeration blow-up are aborted by the step counter and left to C10",
 		"empty prefixes are not generated")
 	nCorp := c.Pick(240, 4000)
+	if vk.DebugOnly("c07-mergedfront") {
+		nCorp = 0
+	}
 	nQ := c.Pick(40, 50)
 	workers := runtime.NumCPU()
 	var wg sync.WaitGroup
@@ -507,7 +619,7 @@ func runC07(c *vk.Ctx) {
 				nq := nQ
 				switch i % 4 {
 				case 1: // boolean-heavy over plain terms (Advance paths)
-					kinds = []string{"term", "term", "term", "all", "none", "kwterm"}
+					kinds = []string{"term", "term", "term", "all", "none", "kwterm", "idterm", "idterm"}
 					depth = 4
 				case 2:
 					kinds = []string{"term", "match", "matchphrase", "multiphrase", "prefix", "wildcard", "regexp", "fuzzy", "termrange"}
@@ -548,6 +660,9 @@ func runC07(c *vk.Ctx) {
 		}(w)
 	}
 	wg.Wait()
+	for i := 0; i < c.Pick(30, 600); i++ {
+		c07MergedFront(c, i)
+	}
 	// small scope
 	var assignments []int
 	if c.Quick() {
